@@ -4,7 +4,7 @@ x plain / heat, rendered through fname=*.raw (pydot's DOT text, parsed by mc/dot
 (fname=*.json) to confirm the DOT is accepted and yields the same node / edge / cluster sets; a loss-magnitude family for the SI labels."""
 import itertools, copy, os, json, re, shutil
 from ..common import Run, Res, seed, quiet_call, VERIF, close
-from ..sysmodel import build, observe, resolve, g, letters, PH2, _r
+from ..sysmodel import build, build_holes, observe, resolve, g, letters, PH2, _r
 from ..muxsys import mux_spec
 from ..dotparse import parse
 from sysloss.diagram import make_diag, make_hdiag, get_conf
@@ -212,7 +212,7 @@ def check_case(case):
         spec = copy.deepcopy(shapes(case["pal"])[case["shape"]])
         for c, gi in zip(spec["comps"], case["groups"]):
             c["g"] = ["", "g1", "g2"][gi]
-    s = build(spec)
+    s = build_holes(spec) if case.get("holes") else build(spec)
     conf = config_for(case.get("config", "default"), spec)
     conf_before = copy.deepcopy(conf)
     conf_eff = conf if conf else get_conf()
@@ -254,6 +254,8 @@ def check_case(case):
     if fam == "names":  # one signature family per name menu, so that a recorded finding is identified by its exact input
         res.viol = [(("C19.odd-names", "|".join(case["names"]), "heat" if heat else "plain", sig[0]), det) for sig, det in res.viol]
     res.classes.add("%s:%s:%s" % (fam, "heat" if heat else "plain", case.get("config", "default")))
+    if case.get("holes"):
+        res.classes.add("edited-system")
     return res
 
 
@@ -277,6 +279,8 @@ def gen_cases(tier):
                         if use_gv:
                             gv += 1
                         yield dict(fam="shape", shape=name, pal=pal, groups=groups, config=cfg, heat=heat, group=group, graphviz=use_gv)
+                        if cfg == "default" and sum(gs) in (0, 2):  # the same structure reached through an edit history (freed + re-used node indices)
+                            yield dict(fam="shape", shape=name, pal=pal, groups=groups, config=cfg, heat=heat, group=group, graphviz=False, holes=True)
     decs = range(-14, 8)
     mant = [1.234, 9.996, 5.555, 1.0, 9.5]
     for d_ in decs:
@@ -302,11 +306,12 @@ def main(tier):
     finally:
         shutil.rmtree(os.path.join(VERIF, ".work"), ignore_errors=True)
     run.require(run.stats["graphviz_renders"] >= 10, "too few Graphviz renders")
+    run.require("edited-system" in run.classes, "no edited systems rendered")
     return run.finish(
         rule="5 system shapes (chain, fan-out, two sources, 2-input PMux, 2-phase system) x ALL assignments of the first 4 (5) components to groups {none, g1, g2} x 7 configurations "
              "(default {}, kind override, name override, both, cluster override, rankdir LR + edge colour, empty kind entry) x plain / heat x grouping on / off, rendered to DOT text (fname=*.raw) and parsed; "
              "a subset rendered by real Graphviz (fname=*.json) and compared node / edge / cluster sets; loss magnitudes 1e-14..1e7 W x 5 mantissas (incl. rounding carries) for the SI labels; "
-             "5 name menus with spaces, colons, quotes and DOT keywords. Oracle: node / edge / cluster sets, attribute precedence default < kind < name on every node, caller's config unchanged, "
+             "5 name menus with spaces, colons, quotes and DOT keywords; every shape additionally reached through an edit history that frees and re-uses node indices. Oracle: node / edge / cluster sets, attribute precedence default < kind < name on every node, caller's config unchanged, "
              "heat label parses back within 3 significant digits of the duration-weighted loss, colours ordered as losses, max -> warm and zero -> cold exactly, legend = max loss. "
              "non-trivial = heat diagram with >= 3 distinct losses.",
         assumptions=["DOT text parsed by a purpose-built tokenizer for the subset pydot emits", "image output (PNG) not inspected"])
